@@ -7,11 +7,12 @@ class C27(Spec):
     harness = "h_c27"
     lean_deps = ("C25", "C20")
     required_theorems = ("C27.best_chain_only_executed", "C27.reject_tip_extension_noop", "C27.reject_orphan_placement_noop",
-                         "C27.reject_processed_orphan_noop", "C27.reject_side_placement_noop", "C27.reject_noop_full_false",
+                         "C27.reject_processed_orphan_noop", "C27.reject_side_placement_noop", "C27.reject_no_fork_noop",
+                         "C27.no_fork_regression_old_connectBestChain", "C27.reject_noop_full_false",
                          "C27.no_poisoning_full_false", "C27.no_poisoning_partial",
                          "C27.rejected_body_not_served_full_false")
     partial = ("C27.reject_tip_extension_noop", "C27.reject_orphan_placement_noop", "C27.reject_processed_orphan_noop",
-               "C27.reject_side_placement_noop", "C27.no_poisoning_partial")
+               "C27.reject_side_placement_noop", "C27.reject_no_fork_noop", "C27.no_poisoning_partial")
     refuted = ("C27.reject_noop_full_false", "C27.no_poisoning_full_false", "C27.rejected_body_not_served_full_false")
     quick_timeout = 900
     thorough_timeout = 5400
